@@ -39,6 +39,23 @@ def context_dependent(f: FuncInfo, expr: ast.AST, repo) -> str | None:
     return None
 
 
+def _why_transitive(f: FuncInfo, expr: ast.AST, repo, depth: int = 4, seen: set | None = None) -> str | None:
+    """context_dependent through the local definitions the expression is built from (flow-insensitive, bounded)"""
+    why = context_dependent(f, expr, repo)
+    if why is not None or depth == 0:
+        return why
+    seen = seen if seen is not None else set()
+    for nm in sorted(names_in(expr)):
+        if nm in seen or nm == "self":
+            continue
+        seen.add(nm)
+        for v in c01._reaching_values(f, nm):
+            why = _why_transitive(f, v, repo, depth - 1, seen)
+            if why is not None:
+                return why
+    return None
+
+
 def r1(ctx: Context) -> None:
     ctx.rule("R1", "no value derived from the currently executing invocation (Task.invocation / the context module) is memoised in a slot of an object that outlives one execution (Task, WorkflowContext, Pynenc: cached_property or `if self._x is None: self._x = ...`) unless the slot is keyed by that context")
     repo = ctx.repo
@@ -59,14 +76,30 @@ def r1(ctx: Context) -> None:
                         if isinstance(t, ast.Attribute) and isinstance(t.value, ast.Name) and t.value.id == "self":
                             slot = t.attr
                             n_slots += 1
-                            why = context_dependent(m, a.value, repo)
-                            if why is None:
-                                for nm in names_in(a.value):
-                                    for v in c01._reaching_values(m, nm):
-                                        why = why or context_dependent(m, v, repo)
+                            why = _why_transitive(m, a.value, repo)
                             ok = why is None
                             ctx.add("R1", f"{m.qualname}::memo-slot::{slot}", ok, m.loc(a),
                                     "" if ok else f"self.{slot} stores {ast.unparse(a.value)[:70]}, built from {why} - the invocation executing at that moment. {cname} objects live for the whole process, so a later execution of the same task for another workflow (or a retry / replay of the same workflow) reuses the first executor: its workflow identity and its operation counters")
+            # ... and any store INTO a container slot of a long-lived object (keyed or not): the same
+            # invocation id executes more than once in one process (retry, recovery re-run), so a key
+            # taken from the executing invocation does not make the stored value execution-scoped
+            for a in walk_no_nested(m.node):
+                val = None
+                slot = None
+                if isinstance(a, ast.Assign) and len(a.targets) == 1 and isinstance(a.targets[0], ast.Subscript):
+                    t = a.targets[0]
+                    base_ = t.value
+                    if isinstance(base_, ast.Attribute) and isinstance(base_.value, ast.Name) and base_.value.id == "self":
+                        slot, val = base_.attr, a.value
+                elif isinstance(a, ast.Call) and isinstance(a.func, ast.Attribute) and a.func.attr in ("setdefault", "append", "add", "update", "insert") and isinstance(a.func.value, ast.Attribute) and isinstance(a.func.value.value, ast.Name) and a.func.value.value.id == "self" and a.args:
+                    slot, val = a.func.value.attr, a.args[-1]
+                if slot is None or val is None:
+                    continue
+                n_slots += 1
+                why = _why_transitive(m, val, repo)
+                ok = why is None
+                ctx.add("R1", f"{m.qualname}::memo-container::{slot}", ok, m.loc(a),
+                        "" if ok else f"self.{slot}[...] keeps {ast.unparse(val)[:60]}, built from {why}: {cname} objects live for the whole process and an invocation id is executed again on retry / recovery, so the second execution finds the first execution's executor with its advanced operation counters and draws fresh values instead of replaying")
             if any(d in ("cached_property", "functools.cached_property") for d in m.decorators):
                 n_slots += 1
                 why = None
